@@ -94,3 +94,29 @@ impl Spanned<ListComprehension> {
     #[verifier::external_body]
     pub fn into_parts(self) -> (r: (ListComprehension, Span)) ensures (r.0.condition is Some) == cond_of(self) { unimplemented!() }
 }
+// ---- compile_block
+/// a name-keyed table (HashMap<String, T>): only the set of names matters here
+#[verifier::external_body]
+#[verifier::accept_recursive_types(T)]
+pub struct VxTable<T> { _p: core::marker::PhantomData<T> }
+impl<T> VxTable<T> { pub uninterp spec fn names(&self) -> vstd::set::Set<Seq<char>>; }
+#[verifier::external_body]
+pub fn vx_table_insert<T>(t: &mut VxTable<T>, name: String, v: T) -> (r: Option<T>)
+    ensures final(t).names() == old(t).names().insert(name@)
+{ unimplemented!() }
+/// `std::mem::replace(&mut self.chunk, c)`
+#[verifier::external_body]
+pub fn vx_swap_chunk(slot: &mut Chunk, c: Chunk) -> (r: Chunk) ensures r == *old(slot), *final(slot) == c { unimplemented!() }
+/// `std::mem::take(&mut self.processing_bodies)`
+#[verifier::external_body]
+pub fn vx_take_bodies(v: &mut Vec<ProcessingBody>) -> (r: Vec<ProcessingBody>) ensures r@ == old(v)@, final(v)@.len() == 0 { unimplemented!() }
+pub uninterp spec fn spanned_string(s: Spanned<String>) -> String;
+pub open spec fn block_name_of(b: Block) -> String { spanned_string(b.name) }
+impl Spanned<String> {
+    #[verifier::external_body]
+    pub fn into_parts(self) -> (r: (String, Span)) ensures r.0 == spanned_string(self) { unimplemented!() }
+}
+impl Chunk {
+    #[verifier::external_body]
+    pub fn new(name: &str) -> (r: Chunk) ensures r.instructions@.len() == 0 { unimplemented!() }
+}
